@@ -18,6 +18,8 @@
 EXTENDS Naturals, Sequences
 
 PassedThrough(reached, injected) == reached = injected
+\* "unchanged": what the caller can read off the object (type, arguments, attributes, text) is what it was when raised
+ContentUnchanged(c, c0) == c = c0
 IsPrefix(w, f) == Len(w) <= Len(f) /\ (Len(w) = 0 \/ SubSeq(f, 1, Len(w)) = w)
 \* "as if the failed one had not happened": library-global state right after the failed call is what it was before it
 StateRestored(g, g0) == g = g0
